@@ -66,6 +66,10 @@ class Program:
             if isinstance(o, dict):
                 if o.get("k") == "fn" and "inst" in o:
                     out.append(o["inst"])
+                # a closure constructed here may be called through a `&dyn Fn` / function pointer (an indirect call with
+                # no resolved callee, e.g. hashbrown's re-hash callback): its body counts as referenced by the constructor
+                if o.get("agg") == "closure" and isinstance(o.get("body"), int):
+                    out.append(o["body"])
                 for v in o.values():
                     walk(v)
             elif isinstance(o, list):
